@@ -162,6 +162,11 @@ def create_header(
         # TODO: This behaviour does not match the docstring.
         reuse_info = existing_spdx | reuse_info
         reuse_info = reuse_info.copy(copyright_lines=spdx_copyrights)
+    elif merge_copyrights:
+        # Also merge what was given for a file that has no header yet.
+        reuse_info = reuse_info.copy(
+            copyright_lines=merge_copyright_lines(reuse_info.copyright_lines)
+        )
 
     new_header += _create_new_header(
         reuse_info,
